@@ -123,7 +123,13 @@ CHECKS = {
           "mstep_fault_isolated, and the same for the Data server model (Conc/DataClose.lean, Conc/DataFault.lean: DCloseInv, DPoolInv, "
           "c20d_closed, greach_nio, …); tied by lock-step co-simulation of close and failure scenarios on both server kinds, by fault-injection co-simulation of both real servers under the scheduler (EOF / "
           "reset at every inbound offset class, each write index up to 8, close requests by id and agreed version, close() twice, handler "
-          "absent/True/False/None, pool tasks in flight) and by the reader-dispatch differential.",
+          "absent/True/False/None, pool tasks in flight) and by the reader-dispatch differential. The application's own close() from "
+          "another thread, called any number of times, is the model Conc/AppClose.lean with Props/C20A.lean proved for every schedule, "
+          "inbound stream, fault position and handler: c20a_own_close_not_reported (a reader report implies stop flag clear, socket not "
+          "closed by close(), peer failed), c20a_no_fault_no_report, c20a_writer_never_writes_closed, c20a_again (every step of a repeated "
+          "close() is enabled at once and changes nothing but one more stop pill), c20a_closed, c20a_tasks_accounted, c20a_fifo, "
+          "c20a_flushed, c20a_app_progress, c20a_reader_ends, c20a_report_once, c20a_exit_iff, c20a_exc_only_after_shutdown; tied by trace "
+          "acceptance of the real event log (both server kinds, 1-3 close() calls at a random moment, peer failures, failing writes).",
   "ref": "DESIGN.md §5 C20",
   "note": "trusted: Lean kernel; scheduler shim with scripted socket; os._exit substituted; real socket/exit semantics are the OS's",
   "technique": "Lean 4 proof (case analysis) + fault-injection co-simulation + sequential differential + structural skeleton of the concurrent code regenerated from the source (translator) and compared by theorem"},
